@@ -392,7 +392,7 @@ def build_stages(pc2, g, sk, idx, hints, float_mode):
     return stages
 
 
-def solve_stages(stages, rlimit, timeout_ms, use_cvc5, cex_terms, deadline=None):
+def solve_stages(stages, rlimit, timeout_ms, use_cvc5, cex_terms, deadline=None, confirm=False):
     """rounds of growing budget; first unsat wins. Only complete stages (qf when there is no full stage, full) give a
     definite counter-model; a qf model with an undecided full stage is a candidate ("sat-qf")."""
     t0 = time.time()
@@ -461,7 +461,18 @@ def solve_stages(stages, rlimit, timeout_ms, use_cvc5, cex_terms, deadline=None)
         cvc5_round(min(90, max(10, timeout_ms // 2000)))
     if verdict == "unknown" and cand is not None:
         verdict, backend, model = "sat-qf", "z3/qf", cand
-    return {"verdict": verdict, "backend": backend, "model": model, "detail": detail, "secs": round(time.time() - t0, 3)}
+    second = None
+    if confirm and verdict == "unsat" and backend.startswith("z3/"):
+        # thorough tier: the stage z3 refuted is handed to the second back end as well (agreement is recorded; a `sat` answer of cvc5 on the
+        # same assertions is a disagreement between the back ends and makes the obligation undecided)
+        label = backend.split("/", 1)[1]
+        asserts = dict(stages)[label]
+        r2, secs2, _ = run_cvc5(to_smt2(asserts, None), 30, [])
+        second = r2 if r2 in ("unsat", "sat") else "unknown"
+        detail.append(("cvc5-confirm/" + label, r2, secs2))
+        if r2 == "sat":
+            verdict, backend = "unknown", "z3-vs-cvc5-disagree"
+    return {"verdict": verdict, "backend": backend, "model": model, "detail": detail, "secs": round(time.time() - t0, 3), "second": second}
 
 
 def guarded_check(asserts, rlimit, tmo_ms, cex_terms):
